@@ -441,3 +441,62 @@ def r_message_dedup(ctx):
 
 
 RULES.append(r_message_dedup)
+
+
+def r10_one_round_exactly_once(ctx):
+    """C02.R10: within one call of the assignment heuristic (concrete model components, both phases): no task and no worker appears in
+    two assignments, every assigned task leaves the computable set, unassigned tasks stay, the idle set loses exactly the assigned
+    workers, counters drop by the number of assignments, and the function completes."""
+    repo = ctx.repo
+    fi = repo.func(f"{ASSIGN}._assignment_heuristic")
+    ctx.analysed(fi.qual)
+    from .common import model_coll
+    T1, T2 = Atom("T1"), Atom("T2")
+    W1, W2 = worker("H1", "w0"), worker("H1", "w1")
+    CS = "cascade.scheduler.core.ComponentSchedule"
+    cases = [
+        ("one task, two workers, none at optimum distance (greedy phase only)", [T1], [W1, W2], {W1: {T1: 5}, W2: {T1: 5}}, 1),
+        ("two tasks, one worker at optimum distance for the first", [T1, T2], [W1], {W1: {T1: 0, T2: 5}}, 1),
+        ("two tasks, two workers, greedy phase for both", [T1, T2], [W1, W2], {W1: {T1: 5, T2: 5}, W2: {T1: 5, T2: 5}}, 2),
+        ("first task optimal at w0, second only greedy", [T1, T2], [W1, W2], {W1: {T1: 0, T2: 5}, W2: {T1: 5, T2: 5}}, 2),
+        ("both tasks optimal at the same worker", [T1, T2], [W1, W2], {W1: {T1: 0, T2: 0}, W2: {T1: 5, T2: 5}}, 2),
+    ]
+    for label, tasks, workers, dist, want_n in cases:
+        comp = Obj(CS, {"computable": {t: 0 for t in tasks}, "worker2task_distance": {w: dict(d) for w, d in dist.items()},
+                        "worker2task_values": model_coll(repo, CS, "worker2task_values", list(tasks)), "weight": len(tasks),
+                        "core": Obj("cascade.scheduler.core.ComponentCore", {"value": {T1: 1, T2: 2}})}, name="comp")
+        env = {"state.components": [comp], "state.idle_workers": set(workers), "state.computable": len(tasks),
+               "state.worker2task_overhead": {w: {T1: 1, T2: 2} for w in workers}}
+        ip = Interp(repo, call_models={"cascade.scheduler.assign.build_assignment": lambda run, a, k, n, f: ("ASSIGN", a[0], a[1])})
+        paths = ip.explore(fi, env=env, args={"tasks": list(tasks), "workers": list(workers), "component_id": 0})
+        ctx.evals(len(paths))
+        row = {"case": label}
+        if len(paths) != 1:
+            ctx.undecided("C02.R10", loc(fi), f"{label}: {len(paths)} paths on a concrete model ({[(d.key) for p in paths[:2] for d in p.decisions[:3]]})")
+            continue
+        p = paths[0]
+        ys = [e.data.get("value") for e in p.effects if e.kind == "yield"]
+        ys = [y for y in ys if isinstance(y, tuple) and len(y) == 3 and y[0] == "ASSIGN"]
+        ws, ts = [y[1].name for y in ys], [y[2].name for y in ys]
+        c2 = p.heap["state.components"][0]
+        left = sorted(t.name for t in c2.fields["computable"])
+        idle = sorted(w.name for w in p.heap["state.idle_workers"])
+        exp_left = sorted(t.name for t in tasks if t.name not in ts)
+        exp_idle = sorted(w.name for w in workers if w.name not in ws)
+        problems = []
+        if p.exit[0] != "return":
+            problems.append(f"the heuristic ends with {p.exit[0]} {vkey(p.exit[1])[:60]} (after yielding {list(zip(ws, ts))})")
+        if len(set(ws)) != len(ws) or len(set(ts)) != len(ts):
+            problems.append(f"assignments {list(zip(ws, ts))}: a {'worker' if len(set(ws)) != len(ws) else 'task'} appears twice")
+        if len(ys) != want_n:
+            problems.append(f"{len(ys)} assignment(s) {list(zip(ws, ts))}, expected {want_n}")
+        if not problems and (left != exp_left or idle != exp_idle or p.heap["state.computable"] != len(tasks) - len(ys) or c2.fields["weight"] != len(tasks) - len(ys)):
+            problems.append(f"after {list(zip(ws, ts))}: computable tasks {left} (expected {exp_left}), idle workers {idle} (expected {exp_idle}), "
+                            f"state.computable {vkey(p.heap['state.computable'])}, component.weight {vkey(c2.fields['weight'])} (expected {len(tasks) - len(ys)})")
+        if problems:
+            ctx.violation("C02.R10", fi.qual, loc(fi), f"exactly once within a round: {label}", f"{label}: " + "; ".join(problems), row=row)
+        else:
+            ctx.ok("C02.R10", loc(fi), f"one round | {label} -> {list(zip(ws, ts))}")
+
+
+RULES.append(r10_one_round_exactly_once)
